@@ -26,7 +26,10 @@ correspondence), `near` (impl vs model), `mutant` (impl vs spec "quiet never rai
 """
 import contextlib
 import io
+import os
 import re
+import shutil
+import tempfile
 
 from .. import core
 
@@ -80,7 +83,7 @@ SPECIAL = {
     'ACTA': {'word': ['NOHKL']},
     'DISP': {'word': ['C']},
     'SFAC': {'word': ['C', 'H', 'O', 'N']},
-    'RESI': {'word': ['TOL'], 'int': ['4', '5']},
+    'RESI': {'word': ['TOL'], 'int': ['4', '5'], 'sym': ['1PE']},
     'RTAB': {'word': ['Omeg', 'C1', 'C2', 'O1', 'C3']},
     'HKLF': {'int': ['4', '1', '0', '0', '0', '1', '0', '0', '0', '1', '2']},
     'TWIN': {'int': ['0', '1', '0', '1', '0', '0', '0', '0', '-1', '2'], 'num': ['0.0', '1.0', '0.0', '1.0', '0.0', '0.0', '0.0', '0.0', '-1.0']},
@@ -131,6 +134,12 @@ def form_desc(kinds):
 # files, by construction
 
 SENT_RESTRAINT = ['DFIX', '1.5123', 'C1', 'C2']
+SENT_RESTRAINT2 = ['DFIX', '1.6123', 'C2', 'O1']      # sentinel inside an include file
+INC_A, INC_B = 'c02_inc_a.ins', 'c02_inc_b.ins'
+# what a previous call may leave behind on the same object: open RESI / PART / AFIX / FRAG, END seen, parse aborted
+DIRTY = ('TITL dirty\nCELL 0.71073 7 8 9 90 90 90\nZERR 2 0.001 0.001 0.001 0 0 0\nLATT 2\nSYMM -x, -y, z\nSFAC C N\nUNIT 4 4\n'
+         'DEFS 0.5 0.5 0.5 0.5\nFVAR 0.3 0.4 0.5 0.6\nRESI 3 TOL\nPART 2 21\nAFIX 43\nFRAG 17\nC1 1 0.5 0.5 0.5 11 0.05\nSADI C1 N1 C1 N2\n'
+         'HKLF 5\nEND\nWGHT 0.2\nTEMP abc\nQ9 1 0.1 0.1 0.1 11 0.05 0.5\n')
 
 
 def atom_line(name, sfac=1, k=1):
@@ -138,16 +147,44 @@ def atom_line(name, sfac=1, k=1):
 
 
 def build(case):
-    """case -> list of logical lines [(tokens, role)], role in {'', 'test', 'atom:<name>', 'sent:<what>'}.
+    return build2(case)[0]
+
+
+def build2(case):
+    """case -> (list of logical lines [(tokens, role)], parallel list of the file each line is written to);
+    role in {'', 'test', 'inc', 'atom:<name>', 'sent:<what>'}.  The list is in the order the parser sees the lines, i.e. with
+    the include files (case['via'] = 'include' | 'nested') already spliced in after their '+filename' line.
     A logical line may be rendered on two physical lines (case['wrap'])."""
     kw, toks, pos = case['kw'], case['toks'], case['pos']
     line = [case.get('kwtext', kw)] + list(toks)
     nsf = case.get('nsfac', 3)
     els = ['C', 'H', 'O', 'N'][:nsf]
     L = []
+    F = []
+    cur = ['main']
 
     def add(tokens, role=''):
         L.append((list(tokens), role))
+        F.append(cur[0])
+
+    def place(tokens, role):
+        """the line under test: in the main file, in an include file, or in an include file of an include file"""
+        via = case.get('via')
+        if via not in ('include', 'nested'):
+            add(tokens, role)
+            return
+        add(['+' + INC_A], 'inc')
+        cur[0] = INC_A
+        if via == 'nested':
+            add(['+' + INC_B], 'inc')
+            cur[0] = INC_B
+        add(tokens, role)
+        add(atom_line('C5', 1, 5), 'atom:C5')          # sentinels INSIDE the include file, after the line
+        add(SENT_RESTRAINT2, 'sent:restraint2')
+        if via == 'nested':
+            cur[0] = INC_A
+            add(atom_line('C6', 1, 6), 'atom:C6')      # and after the nested include, in the outer include file
+        cur[0] = 'main'
 
     def slot(name, default_lines):
         if pos == name:
@@ -178,8 +215,10 @@ def build(case):
         add(line, 'test')
     else:
         add(['UNIT'] + ['8', '16', '4', '2'][:nsf])
+    add(['REM', 'c02', 'by-construction', 'file'])
+    add(['REM', 'sentinels', 'follow', 'the', 'line', 'under', 'test'])
     if pos == 'instr':
-        add(line, 'test')
+        place(line, 'test')
     add(['L.S.', '10'])
     add(['PLAN', '5'])
     if pos == 'fvar':
@@ -188,9 +227,9 @@ def build(case):
         add(['FVAR', '0.51234', '0.61234', '0.71234'])
     add(atom_line('C1', 1, 1), 'atom:C1')
     if pos == 'atoms':
-        add(line, 'test')
+        place(line, 'test')
     if pos == 'atomline':
-        add(line, 'atom:' + line[0].upper()[:4])      # (names are compared without regard to case)
+        place(line, 'atom:' + line[0].upper()[:4])      # (names are compared without regard to case)
     if pos == 'frag':
         for l in case['block']:
             add(l, 'test')
@@ -215,28 +254,35 @@ def build(case):
     if pos == 'tail':
         add(line, 'test')
     add(['Q1', '1', '0.12340', '0.23450', '0.34560', '11.00000', '0.05', '1.23'], 'atom:Q1')
-    return L
+    return L, F
 
 
-def render(lines, wrap=False):
-    """-> (text, first physical line index per logical line)"""
+def render(lines, wrap=False, files=None):
+    """-> (text of the spliced line list, first physical line index per logical line, number of physical lines)
+    and, with `files` (parallel list of file names), additionally {file name: its text}"""
     phys = []
     first = []
-    for toks, role in lines:
+    per = {}
+    for n, (toks, role) in enumerate(lines):
         first.append(len(phys))
         if wrap and role.startswith('atom:') and len(toks) >= 12:
-            phys.append(' '.join(toks[:8]) + ' =')
-            phys.append('    ' + ' '.join(toks[8:]))
+            new = [' '.join(toks[:8]) + ' =', '    ' + ' '.join(toks[8:])]
         elif toks and toks[0] == 'TITL':
-            phys.append(' '.join(toks))
+            new = [' '.join(toks)]
         else:
-            phys.append(toks[0].ljust(4) + (' ' + '  '.join(toks[1:]) if len(toks) > 1 else ''))
-    return '\n'.join(phys) + '\n', first, len(phys)
+            new = [toks[0].ljust(4) + (' ' + '  '.join(toks[1:]) if len(toks) > 1 else '')]
+        phys += new
+        if files is not None:
+            per.setdefault(files[n], []).extend(new)
+    text = '\n'.join(phys) + '\n'
+    if files is not None:
+        return text, first, len(phys), {k: '\n'.join(v) + '\n' for k, v in per.items()}
+    return text, first, len(phys)
 
 
 def kw_of_line(toks):
     k = toks[0].upper()
-    return k.split('_')[0] if not k.startswith('+') else k
+    return k.split('_')[0] if not k.startswith('+') else '+'
 
 
 def forms_of(lines):
@@ -246,7 +292,9 @@ def forms_of(lines):
 # ----------------------------------------------------------------------------------------------------------------
 # implementation
 
-def observe(text, mode):
+def observe(text, mode, files=None, prelude=None, workdir=None):
+    """parse `text` (or, with `files` = {name: text or bytes} and the main file under the key 'main', read it with read_file
+    from `workdir`) and report the property's observables; `prelude`: a text the same object has to read first"""
     from shelxfile import Shelxfile
     shx = Shelxfile(verbose=(mode == 'verbose'), debug=(mode == 'debug'))
     inner = []
@@ -262,8 +310,21 @@ def observe(text, mode):
     shx._parse_cards = wrapped
     outer = None
     with contextlib.redirect_stdout(io.StringIO()):
+        if prelude is not None:
+            try:
+                shx.read_string(prelude)
+            except BaseException:
+                pass
+            del inner[:]
         try:
-            shx.read_string(text)
+            if files is None:
+                shx.read_string(text)
+            else:
+                for name, content in files.items():
+                    fn = os.path.join(workdir, 'c02_main.res' if name == 'main' else name)
+                    with open(fn, 'wb') as f:
+                        f.write(content if isinstance(content, bytes) else content.encode())
+                shx.read_file(os.path.join(workdir, 'c02_main.res'))
         except Exception as e:
             outer = type(e).__name__
         except SystemExit:
@@ -273,10 +334,10 @@ def observe(text, mode):
     except Exception as e:
         names = ['<' + type(e).__name__ + '>']
     try:
-        restr = [str(r) for r in shx.restraints]
+        restr = [str(r).split() for r in shx.restraints]
     except Exception as e:
-        restr = ['<' + type(e).__name__ + '>']
-    return dict(atoms=names, restraint=any(r.split() == SENT_RESTRAINT for r in restr), hklf=shx.hklf is not None, end=bool(shx.end),
+        restr = [['<' + type(e).__name__ + '>']]
+    return dict(atoms=names, restraint=SENT_RESTRAINT in restr, restraint2=SENT_RESTRAINT2 in restr, hklf=shx.hklf is not None, end=bool(shx.end),
                 wght=shx.wght_suggested is not None, errline=shx.error_line_num, inner=inner[0] if inner else None, outer=outer)
 
 
@@ -294,15 +355,23 @@ def family(name):
 # evaluation
 
 def evaluate(ctx, cases, stream=None):
+    workdir = tempfile.mkdtemp(prefix='c02_')
+    try:
+        _evaluate(ctx, cases, workdir)
+    finally:
+        shutil.rmtree(workdir, ignore_errors=True)
+
+
+def _evaluate(ctx, cases, workdir):
     reqs = []
     built = []
     for case in cases:
         if case['stream'] == 'mutant':      # the text itself is the case
-            built.append(([], case['text'], [], 0))
+            built.append(([], case.get('text'), [], 0, None))
             continue
-        lines = build(case)
-        text, first, nphys = render(lines, wrap=case.get('wrap', False))
-        built.append((lines, text, first, nphys))
+        lines, fl = build2(case)
+        text, first, nphys, per = render(lines, wrap=case.get('wrap', False), files=fl)
+        built.append((lines, text, first, nphys, per if case.get('via') in ('file', 'include', 'nested') else None))
         if case['stream'] != 'mutant':
             fs = forms_of(lines)
             for m in (MODES if case['stream'] == 'valid' else ['quiet']):
@@ -310,15 +379,22 @@ def evaluate(ctx, cases, stream=None):
             reqs.append(dict(p='C02', op='accepts', mode='quiet', kw=kw_of_line([case.get('kwtext', case['kw'])]),
                              toks=[classify(x) for x in case['toks']], last='UNIT', flags=['cell', 'latt', 'sfac']))
     ans = iter(ctx.driver.batch(reqs)) if reqs else iter([])
-    for case, (lines, text, first, nphys) in zip(cases, built):
+    for case, (lines, text, first, nphys, per) in zip(cases, built):
         st = case['stream']
         ctx.stream(st)
         if st == 'mutant':
-            ob = observe(text, 'quiet')
-            ctx.count(['mutant', text], nontrivial=True, tags=['mutant', 'mutant:' + case.get('mut', '?'), 'mutant-inner:' + str(family(ob['inner']))])
+            if case.get('files') is not None:     # malformed include set-up, read with read_file
+                ob = observe(None, 'quiet', files={k: (bytes(v) if isinstance(v, list) else v) for k, v in case['files'].items()}, workdir=workdir)
+                entry = 'read_file'
+            else:
+                ob = observe(text, 'quiet')
+                entry = 'read_string'
+            ctx.count(['mutant', text, case.get('files')], nontrivial=True,
+                      tags=['mutant', 'mutant:' + case.get('mut', '?'), 'mutant-inner:' + str(family(ob['inner']))])
             if ob['outer'] is not None:
-                ctx.fail(f'C02|malformed|quiet-raises|{ob["outer"]}', f'quiet mode raised {ob["outer"]} on malformed text',
-                         dict(case=case, stream=st, expected='no exception leaves read_string in quiet mode', actual=ob))
+                sig = f'C02|malformed|quiet-raises|{ob["outer"]}' + (f'|include={case["mut"]}' if entry == 'read_file' else '')
+                ctx.fail(sig, f'quiet mode raised {ob["outer"]} on malformed input ({case.get("mut")}, {entry})',
+                         dict(case=case, stream=st, expected=f'no exception leaves {entry} in quiet mode', actual=ob))
             continue
         kinds = [classify(x) for x in case['toks']]
         kw = case['kw'] if case['pos'] != 'atomline' else 'ATOM'
@@ -329,20 +405,20 @@ def evaluate(ctx, cases, stream=None):
             far = any(abs(float(x)) > 4 for l in case['block'][1:-1] for x in l[2:5])
             fd = ('short' if len(kinds) <= 1 else 'cell') + ('|coordinate-beyond-4' if far else '')
         modes = MODES if st == 'valid' else ['quiet']
-        obs = {m: observe(text, m) for m in modes}
+        obs = {m: observe(text, m, files=per, workdir=workdir, prelude=DIRTY if case.get('via') == 'second-call' else None) for m in modes}
         models = {m: next(ans) for m in modes}
         acc = next(ans)
         want_atoms = [r.split(':', 1)[1] for _, r in lines if r.startswith('atom:')]
         sent = set(want_atoms)
         last = nphys - 1
-        ctx.count([st, case.get('kwtext', case['kw']), case['toks'], case['pos'], case.get('symm', True), case.get('wrap', False)],
+        ctx.count([st, case.get('kwtext', case['kw']), case['toks'], case['pos'], case.get('symm', True), case.get('wrap', False), case.get('via')],
                   nontrivial=acc['branch'] not in ('none', 'else') or case['pos'] == 'frag',
-                  tags=[st, 'kw:' + kw, 'pos:' + case['pos'], 'spelling:' + case.get('spell', 'plain'), 'branch:' + acc['branch'][:24], 'nparams:%d' % len(kinds)] +
+                  tags=[st, 'kw:' + kw, 'pos:' + case['pos'], 'spelling:' + case.get('spell', 'plain'), 'via:' + case.get('via', 'read_string'), 'branch:' + acc['branch'][:24], 'nparams:%d' % len(kinds)] +
                        ['impl-inner:%s' % family(obs['quiet']['inner'])],
                   sample=dict(stream=st, line=' '.join([case.get('kwtext', case['kw'])] + case['toks']), pos=case['pos'], impl=obs['quiet'],
                               model=models['quiet']) if len(kinds) > 2 else None)
         payload = dict(case=case, stream=st, text=text, actual=obs, model=models)
-        base = f'C02|kw={kw}|form={fd}' + (f'|{case["spell"]}' if case.get('spell') else '')
+        base = f'C02|kw={kw}|form={fd}' + (f'|{case["spell"]}' if case.get('spell') else '') + (f'|via={case["via"]}' if case.get('via') else '')
         # ---- correspondence: implementation vs model (parseAll), every mode that ran --------------------------
         for m in modes:
             o, mo = obs[m], models[m]
@@ -385,7 +461,7 @@ def evaluate(ctx, cases, stream=None):
                 kind = 'outer=' + o['outer']
             elif got_atoms != want_atoms:
                 kind = 'atom-lost'
-            elif not (o['restraint'] and o['hklf'] and o['end'] and o['wght']):
+            elif not (o['restraint'] and o['hklf'] and o['end'] and o['wght'] and (o['restraint2'] or not any(r == 'sent:restraint2' for _, r in lines))):
                 kind = 'instruction-lost'
             elif o['errline'] != last:
                 kind = 'stopped-early'
@@ -400,7 +476,7 @@ def evaluate(ctx, cases, stream=None):
                      f'valid `{" ".join([case.get("kwtext", case["kw"])] + case["toks"])}` ({case["pos"]}) in {msel} mode(s): {kind}; '
                      f'parse stopped at line {o["errline"] + 1} of {nphys}; atoms not recognised: {lost}', payload)
         if not bad_modes:
-            a = [(obs[m]['atoms'], obs[m]['restraint'], obs[m]['hklf'], obs[m]['end'], obs[m]['wght'], obs[m]['errline']) for m in MODES]
+            a = [(obs[m]['atoms'], obs[m]['restraint'], obs[m]['restraint2'], obs[m]['hklf'], obs[m]['end'], obs[m]['wght'], obs[m]['errline']) for m in MODES]
             if a[0] != a[1] or a[0] != a[2]:
                 ctx.fail(f'{base}|modes-disagree', f'quiet/verbose/debug give different models for `{" ".join([case.get("kwtext", case["kw"])] + case["toks"])}`', payload)
 
@@ -443,6 +519,17 @@ def valid_cases(tab, suffixes=('',)):
                                 if [classify(t) for t in sv['toks']] != [classify(t) for t in c['toks']]:
                                     raise RuntimeError(f'harness: spelling changed the lexical classes: {sv}')
                                 out.append(sv)
+    # second entry point and include files: the same lines read with read_file, inside an include file, inside an include
+    # file of an include file; and read_string on an object that has parsed something else before
+    extra = []
+    for c in out:
+        if c.get('spell') or c.get('kwtext') or not c.get('symm', True):
+            continue
+        if c['pos'] == 'atoms':
+            extra += [dict(c, via='include'), dict(c, via='nested')]
+        if c['pos'] == 'instr' or (c['pos'] not in BODY_POS):
+            extra += [dict(c, via='file'), dict(c, via='second-call')]
+    out += extra
     # WGHT also after END (the weighting scheme SHELXL suggests)
     for row in tab['syntax']:
         if row['kw'] in ('WGHT', 'REM'):
@@ -455,6 +542,8 @@ def valid_cases(tab, suffixes=('',)):
             out.append(dict(stream='valid', kw='C9', toks=toks, pos='atomline', wrap=wrap))
         if 'big' in kinds[1:4]:
             continue        # (coded coordinates are the open finding: its spelling variants add nothing)
+        for via in ('file', 'include', 'nested', 'second-call'):
+            out.append(dict(stream='valid', kw='C9', toks=toks, pos='atomline', via=via))
         out.append(dict(stream='valid', kw='C9', kwtext='c9', toks=toks, pos='atomline', spell='case=lower'))
         for how in NUMSTYLES:
             t2 = toks[:1] + [respell_number(t, how) for t in toks[1:]]
@@ -549,7 +638,7 @@ def atom_tokens(kinds):
 def near_cases(rng, valid, n):
     """one-token damage of valid lines: not valid input any more"""
     out = []
-    cand = [c for c in valid if c['pos'] in ('instr', 'atoms', 'atomline') and not c.get('kwtext')]
+    cand = [c for c in valid if c['pos'] in ('instr', 'atoms', 'atomline') and not c.get('kwtext') and not c.get('via')]
     repl = dict(int=['2.5', 'C1', '5E-1'], num=['C1', '-x,', '7', '25E-1'], dnum=['C1'], big=['C1', '0.5', '1e1'], word=['2.5', '3', '1e0'], sym=['C1', '1.5'], enum=['C1', '2'])
     for _ in range(n):
         c = dict(rng.choice(cand))
@@ -574,8 +663,9 @@ def near_cases(rng, valid, n):
 def mutants(rng, valid, n):
     out = []
     alphabet = ' =!_$.,+-0123456789ABCEFHILMNOPRSTUXYZabcxyz\t()/:*<>'
+    plain = [c for c in valid if not c.get('via')]
     for _ in range(n):
-        base = rng.choice(valid)
+        base = rng.choice(plain)
         lines = build(base)
         if rng.random() < 0.5:       # a few more valid instructions to damage
             extra = [rng.choice(valid) for _ in range(rng.randint(1, 4))]
@@ -634,7 +724,7 @@ def hostile_cases(valid):
     out = []
     n = 0
     for c in valid:
-        if c.get('spell') or c.get('kwtext') or c['pos'] in ('pre', 'atoms', 'post', 'frag', 'tail') or not c.get('symm', True):
+        if c.get('spell') or c.get('kwtext') or c.get('via') or c['pos'] in ('pre', 'atoms', 'post', 'frag', 'tail') or not c.get('symm', True):
             continue
         nums = [i for i, t in enumerate(c['toks']) if classify(t) in ('int', 'num', 'big', 'dnum')]
         if not nums:
@@ -648,6 +738,30 @@ def hostile_cases(valid):
             text, _, _ = render(lines)
             out.append(dict(stream='mutant', kw=c['kw'], toks=toks, pos=c['pos'], text=text, mut='hostile-value'))
     return out
+
+
+def include_mutants(valid):
+    """malformed include set-ups, read with read_file in quiet mode: nothing may raise"""
+    base = next(c for c in valid if c['kw'] == 'SADI' and c['pos'] == 'atoms' and not c.get('via'))
+    lines, fl = build2(dict(base, via='nested'))
+    _, _, _, per = render(lines, files=fl)
+    main, a, b = per['main'], per[INC_A], per[INC_B]
+    sets = {
+        'missing-file': {'main': main.replace('+' + INC_A, '+c02_does_not_exist.ins')},
+        'missing-nested-file': {'main': main, INC_A: a},
+        'includes-itself': {'main': main.replace('+' + INC_A, '+c02_main.res')},
+        'mutual-recursion': {'main': main, INC_A: a, INC_B: b + '+' + INC_A + '\n'},
+        'same-file-twice': {'main': main.replace('+' + INC_A + '\n', '+' + INC_A + '\n+' + INC_A + '\n'), INC_A: a, INC_B: b},
+        'empty-file': {'main': main, INC_A: ''},
+        'plus-alone': {'main': main.replace('+' + INC_A, '+')},
+        'plus-plus': {'main': main.replace('+' + INC_A, '++' + INC_A), INC_A: a, INC_B: b},
+        'blank-after-plus': {'main': main.replace('+' + INC_A, '+ ' + INC_A), INC_A: a, INC_B: b},
+        'missing-directory': {'main': main.replace('+' + INC_A, '+no_such_dir/' + INC_A)},
+        'not-text': {'main': main, INC_A: list(b'\xff\xfe\x00C1 \x80\n')},
+        'include-is-directory': {'main': main.replace('+' + INC_A, '+.')},
+        'truncated-include': {'main': main, INC_A: a, INC_B: 'SADI C1 C2 =\n'},
+    }
+    return [dict(stream='mutant', kw='+', toks=[], pos='atoms', mut=k, files=v) for k, v in sets.items()]
 
 
 def run(ctx):
@@ -667,6 +781,6 @@ def run(ctx):
     ctx.extra['product'] = 'every keyword x every form of the syntax table x every position x 3 modes (exhaustive in both tiers)'
     near = near_cases(ctx.rng, valid, ctx.budget(600, 6000))
     mut = mutants(ctx.rng, valid, ctx.budget(1500, 50000))
-    cases = valid + near + hostile_cases(valid) + mut
+    cases = valid + near + hostile_cases(valid) + include_mutants(valid) + mut
     for i in range(0, len(cases), 1000):
         evaluate(ctx, cases[i:i + 1000])
